@@ -695,7 +695,12 @@ func (w *c34World) genTx(rt *rapid.T, view []*c34Acct, kind string) (c34Tx, bool
 	case "stakeInvalid":
 		using := c34Using(a)
 		if using.Sign() > 0 && rapid.Bool().Draw(rt, "belowUsing") {
-			return c34Tx{kind: "stake", from: from, amt: c34Part(rt, "stake", new(big.Int), new(big.Int).Sub(using, big.NewInt(1))), valid: false}, true
+			lo := new(big.Int)
+			if a.unbond.Sign() > 0 && rapid.Bool().Draw(rt, "withinUnbonding") {
+				// above delegated+bonded, but not above delegated+bonded+unbonding
+				lo = new(big.Int).Sub(using, a.unbond)
+			}
+			return c34Tx{kind: "stake", from: from, amt: c34Part(rt, "stake", lo, new(big.Int).Sub(using, big.NewInt(1))), valid: false}, true
 		}
 		max := new(big.Int).Add(a.stake, a.unstk)
 		max.Add(max, a.bal)
